@@ -179,6 +179,38 @@ func execHist(in []string) []string {
 	return append([]string{ipTable(strs...)}, outs...)
 }
 
+// execSweep: long histories of MailboxForAddress in one process, compressed. The target is asked, then N
+// distinct other addresses; the target is asked again after every one of them (dense) or after the last one.
+//
+//	sweep <mode> <target> <N> <dense> => <iptab> <first answer for the target> <k: the target's answer changed after k other lookups, 0: never>
+//	                                     <the changed answer> <j: MailboxForAddress(other_j) differed from ExtractMailbox(other_j), 0: never>
+func execSweep(in []string) []string {
+	m, target, n, dense := vh.AtoI(in[0]), vh.US(in[1]), vh.AtoI(in[2]), in[3] == "1"
+	runtime.LockOSThread()
+	prev := runtime.GOMAXPROCS(1)
+	defer func() {
+		runtime.GOMAXPROCS(prev)
+		runtime.UnlockOSThread()
+	}()
+	e := newHistEnv(m)
+	ref := addressing(m) // the naming function itself, for the other addresses
+	first := optS(e.mgr.MailboxForAddress(target))
+	devK, devAns, devOther := 0, "-", 0
+	for k := 1; k <= n; k++ {
+		other := fmt.Sprintf("u%d+x@H%d.Example", k, k%13)
+		if optS(e.mgr.MailboxForAddress(other)) != optS(ref.ExtractMailbox(other)) && devOther == 0 {
+			devOther = k
+		}
+		if dense || k == n {
+			if ans := optS(e.mgr.MailboxForAddress(target)); ans != first {
+				devK, devAns = k, ans
+				break
+			}
+		}
+	}
+	return []string{ipTable(target), first, vh.I(devK), devAns, vh.I(devOther)}
+}
+
 // strings the parser refuses part-way through (after it has copied some of the local part)
 func refusedAddress(g *vh.Gen) string {
 	w := g.Pick("first", "alice", "Bob.Smith", "x1", "postmaster", "a-b")
@@ -228,6 +260,22 @@ func genHist(g *vh.Gen) {
 			els = []string{el(fop(), genAddress(g)), el(fop(), v), el(fop(), genAddress(g)), el(fop(), v)}
 		}
 		g.Emit("hist", append([]string{vh.I(g.Intn(3))}, els...)...)
+	}
+	// long histories of lookups (anything remembered between calls: caches with a capacity or an age)
+	for m := 0; m < 3; m++ {
+		g.Emit("sweep", vh.I(m), vh.HS(victim()), vh.I(g.N(7000, 70000)), "1")
+	}
+	for _, p := range []int{1, 2, 4, 8, 16, 32, 64, 100, 128, 256, 512, 1000, 1024, 2048, 3000, 4096, 5000, 8192, 10000} {
+		for _, n := range []int{p - 1, p, p + 1} {
+			if n >= 1 {
+				g.Emit("sweep", vh.I(g.Intn(3)), vh.HS(victim()), vh.I(n), "0")
+			}
+		}
+	}
+	if g.Tier == "thorough" {
+		for _, n := range []int{16383, 16384, 16385, 32767, 32768, 32769, 65535, 65536, 65537, 99999, 100000, 100001} {
+			g.Emit("sweep", vh.I(g.Intn(3)), vh.HS(victim()), vh.I(n), "0")
+		}
 	}
 	// with the servers: a delivery, a refusal, then lookups by the address
 	for i := 0; i < g.N(200, 4000); i++ {
